@@ -288,8 +288,7 @@ StoreMenu ==
   CASE Profile = "q" ->
        { <<FALSE, SR(1, 0), "add", {"D"}, FALSE>>,             \* STORE 1:* +FLAGS (\Deleted)
          <<TRUE,  SR(3, 2), "replace", {"S", "K"}, FALSE>>,    \* UID STORE 3:2 FLAGS (\Seen kw)
-         <<FALSE, S1(4), "add", {"F"}, TRUE>>,                 \* STORE 4 +FLAGS.SILENT (\Flagged)
-         <<TRUE,  S1(0), "remove", {"D", "S"}, FALSE>> }       \* UID STORE * -FLAGS (\Deleted \Seen)
+         <<FALSE, S1(4), "remove", {"D", "S"}, TRUE>> }        \* STORE 4 -FLAGS.SILENT (\Deleted \Seen)
     [] Profile = "t" ->
        { <<FALSE, SR(1, 0), "add", {"D"}, FALSE>>,
          <<TRUE,  SR(3, 2), "replace", {"S", "K"}, FALSE>>,
@@ -298,6 +297,7 @@ StoreMenu ==
          <<FALSE, SR(0, 2), "add", {"R", "A"}, FALSE>>,        \* STORE *:2 +FLAGS (\Recent \Answered)
          <<TRUE,  S2(<<4>>, <<4>>), "add", {"D", "K"}, TRUE>>, \* UID STORE 4,4 +FLAGS.SILENT (\Deleted kw)
          <<FALSE, S2(<<3>>, <<1>>), "replace", {}, FALSE>>,    \* STORE 3,1 FLAGS ()
+         <<FALSE, S1(4), "remove", {"D", "S"}, TRUE>>,         \* STORE 4 -FLAGS.SILENT (\Deleted \Seen)
          <<TRUE,  SR(5, 0), "add", {"T"}, FALSE>>,             \* UID STORE 5:* +FLAGS (\Draft)
          <<FALSE, SR(2, 5), "remove", {"S", "F"}, FALSE>> }    \* STORE 2:5 -FLAGS (\Seen \Flagged)
     [] OTHER -> BOOLEAN \X ShapesFull \X Ops \X FlagArgsFull \X BOOLEAN
@@ -305,8 +305,7 @@ StoreMenu ==
 FetchMenu ==
   CASE Profile = "q" ->
        { <<FALSE, S1(1), TRUE>>,                               \* FETCH 1 (BODY[])
-         <<TRUE,  SR(5, 0), FALSE>>,                           \* UID FETCH 5:* (BODY.PEEK[])
-         <<FALSE, S1(0), TRUE>> }                              \* FETCH * (BODY[])
+         <<TRUE,  SR(5, 0), FALSE>> }                          \* UID FETCH 5:* (BODY.PEEK[])
     [] Profile = "t" ->
        { <<FALSE, S1(1), TRUE>>, <<TRUE, SR(5, 0), FALSE>>, <<FALSE, S1(0), TRUE>>,
          <<TRUE,  SR(4, 2), TRUE>>,                            \* UID FETCH 4:2 (BODY[])
@@ -332,8 +331,7 @@ CopyMenu ==
 
 MoveMenu ==
   CASE Profile = "q" ->
-       { <<FALSE, S1(0), "Box">>,                              \* MOVE * Box
-         <<TRUE,  SR(1, 2), "Box">> }                          \* UID MOVE 1:2 Box
+       { <<FALSE, S1(0), "Box">> }                             \* MOVE * Box
     [] Profile = "t" ->
        { <<FALSE, S1(0), "Box">>, <<TRUE, SR(1, 2), "Box">>,
          <<FALSE, SR(2, 0), "Box">>,                           \* MOVE 2:* Box
@@ -349,7 +347,7 @@ AppendMenu ==
          <<"Box", {"F", "K"}, 1>> }
     [] OTHER -> Boxes \X {{}, {"S"}, {"D", "F"}, {"K"}, {"K", "A", "T"}, {"R", "S"}} \X (0..2)
 
-SelectMenu == Boxes
+SelectMenu == IF Profile = "q" THEN {"Box"} ELSE Boxes
 
 Kinds == {"store", "fetch", "expunge", "uidexpunge", "copy", "move", "append", "close", "select"}
 KindEnabled(k) ==
